@@ -24,6 +24,11 @@ def gen_init_cases(rng, n):
         c = rng.random()
         if c < 0.08: q['fields']['major'] = rng.choice([0, 1, 6])
         elif c < 0.16: q['fields']['major'] = rng.choice([8, 9, 100, (1 << 32) - 1])
+        if i < 9:
+            # always present: legacy clients that get the 24-byte reply (5 <= minor < 23), both ends and the middle
+            # (a seeded panic in that reply branch was caught through these)
+            q['fields']['major'] = 7; q['fields']['minor'] = (5, 12, 22)[i % 3]
+            q['fields']['flags'] &= ~(1 << 30); q['flags2'] = None
         coherent = True
         if q['fields']['flags'] & (1 << 30) and q['fields']['minor'] < 36:
             if rng.random() < 0.7: q['fields']['minor'] = rng.choice([36, 37, 38, 39, 40])
@@ -34,9 +39,9 @@ def gen_init_cases(rng, n):
         tb = b'' if q.get('flags2') is None else struct.pack('<I', q['flags2']) + bytes(44)
         h = q['hdr']
         q['bytes'] = S.in_header(40 + len(body) + len(tb), 26, h['unique'], h['nodeid'], h['uid'], h['gid'], h['pid']) + body + tb
-        fs = ('init', q['fields']['_want']) if rng.random() < 0.9 else S.gen_fs(rng, 'err', 26, {})
+        fs = ('init', q['fields']['_want']) if (i < 9 or rng.random() < 0.9) else S.gen_fs(rng, 'err', 26, {})
         q['fs'] = fs
-        cases.append(S.make_case(rng, i, q['bytes'], fs, q, cap=rng.choice([4096, 1 << 17, 80, 40, 24, 23]), remap=(0, 0), minor=None, vu=False))
+        cases.append(S.make_case(rng, i, q['bytes'], fs, q, cap=((4096, 1 << 17, 80)[i // 3] if i < 9 else rng.choice([4096, 1 << 17, 80, 40, 24, 23])), remap=(0, 0), minor=None, vu=False))
     return cases
 
 def run_check(tier, seed):
@@ -48,7 +53,6 @@ def run_check(tier, seed):
         'harness/src/bin/inittoggle.rs: real Vfs / PassthroughFs / OverlayFs objects; the internal switches are observed through behaviour probes (OPEN/OPENDIR ENOSYS, /proc/self/fdinfo flags of the descriptor an O_WRONLY|O_APPEND open produced, setuid bit after open(O_TRUNC) with FOPEN_IN_KILL_SUIDGID as root with CAP_FSETID, FUSE_ATTR_DAX on lookup)']
     ev.assumptions = ['page size 4096 (max_write = 256 pages); with 64 KiB pages the write-size bound does not hold and the statement says so',
                       'clients are coherent: FUSE_INIT_EXT is only sent by minor >= 36 clients (others are exercised for model correspondence only)',
-                      'layer switch theorems are per first INIT of an instance; across INIT/DESTROY/INIT the full statement is refuted (known findings sticky-reinit) and only `negotiated by some INIT of the history` is proved',
                       'quick tier samples capability words per switch combination (none, all, two rotating single bits, one composite/random); thorough runs every word against every combination']
     broken = []; findings = []; import time as _t; ph = {}; t0 = _t.time()
     try:
@@ -94,7 +98,7 @@ def run_check(tier, seed):
     ok2, out2 = coq_make(['Spec/Init.vo', 'Model/ServerCmp.vo'])
     if not ok2: broken.append({'kind': 'proof', 'name': 'Spec build', 'site': coq_error_site(out2)})
     hdr = S.SPEC_HEADER.replace('Spec.Replies.', 'Spec.Replies Spec.Init.')
-    fails, errs = coq_check_cases('c12spec', hdr, exprs, shard=60)
+    fails, errs = coq_check_cases('c12spec', hdr, exprs, shard=(100 if tier == 'quick' else 60))
     if errs: broken.append({'kind': 'spec-eval', 'log': errs[0]})
     for i in fails:
         c = meta[i]; o = obs[c['id']]; q = c['wf']
@@ -120,6 +124,9 @@ def run_check(tier, seed):
     tn, tnon, tsamples = c12_toggles.run(rng, tier, bindir, findings, broken)
     ph['toggles'] = round(_t.time() - t0, 1); ev.cov['phase_end_s'] = ph
     ev.cov['evaluations'] = len(obs) + tn; ev.cov['distinct_nontrivial'] = len(nontriv) + tnon
+    n24 = sum(1 for c in meta if c['wf']['fields']['major'] == 7 and 5 <= c['wf']['fields']['minor'] < 23 and c['fs'][0] == 'init')
+    ev.cov['replies_24_byte_form_checked'] = n24
+    if n24 < 9: broken.append({'kind': 'coverage', 'name': 'INIT cases with 5 <= minor < 23 evaluated by the specification', 'n': n24})
     ev.cov['spec_evaluations'] = len(exprs); ev.cov['model_vs_impl_disagreements'] = len(bad_idx); ev.cov['toggle_cases'] = tn
     ev.cov['rule'] = ('INIT requests over (major in {<7,7,>7}, minor incl. 0,4,5,22,23,35,36,38, flags single bits and random, INIT_EXT with/without the 48-byte tail, flags2 single bits and random) '
                       'x filesystem want sets (random 64-bit, all, none, single extended bits) x reply capacities; reply parsed by Spec/Init.v as the kernel does; plus Vfs/passthrough/overlay init '
